@@ -81,7 +81,8 @@ def make_case(seed: int) -> Dict[str, str]:
         for mn in chosen:
             cs = "stream " if rng.randrange(2) else ""
             ss = "stream " if rng.randrange(2) else ""
-            lines.append(f"  rpc {mn} ({cs}{rng.choice(types)}) returns ({ss}{rng.choice(types)});")
+            dep = " { option deprecated = true; }" if rng.randrange(6) == 0 else ";"
+            lines.append(f"  rpc {mn} ({cs}{rng.choice(types)}) returns ({ss}{rng.choice(types)}){dep}")
         services.append((sn, "\n".join(lines)))
     text = ['syntax = "proto3";', f"package {pkg_name};", ""]
     for imp in sorted(imports):
